@@ -4,6 +4,13 @@ import json, os, sys
 HERE = os.path.dirname(os.path.dirname(os.path.abspath(__file__)))
 
 CHECKS = {
+ "C12": dict(level="other", design="4.10",
+   technique="symbolic-position (polynomial) evaluation of every derived operator and every iterator primitive over the template patterns; ordering truth tables; primitive exhaustiveness",
+   text="Decides mutual consistency of the operators: the derived !=,<=,>=,> of both bases are evaluated under the three orderings with == and < as atoms; "
+        "it++/it--/it+n/n+it/it-n/it[n] and the size_t extension are executed symbolically (result position, argument untouched, old value returned); "
+        "every class built on a base must provide the primitives it derives from; the primitives of xbitset/xoptional/xcomplex/xstepping/xkey/xvalue "
+        "iterators must move every position field by exactly +-1/+-n (times the step) on every path, subtract/compare the same fields in the same orientation.",
+   note="Traversal visiting exactly the container's elements (begin/end of each container) is covered only for the two sequence families by C11; sub-iterators are assumed lawful."),
  "C07": dict(level="proof", design="4.7",
    technique="generated static_assert / must-compile / must-not-compile witnesses discharged by the compilers, plus def-use rules on the aliasing helpers of xclosure_wrapper/xclosure_pointer",
    text="Decides the type/aliasing structure for every value category: ~260 static_asserts on the four mapping traits, the factories, ref-qualified "
